@@ -245,6 +245,11 @@ fn run(script: &[u8], feed: &Feed, data: &[u8]) -> Obs {
                 STATE.with(|s| *s.borrow_mut() = Some(Rc::clone(&state)));
                 state.borrow_mut().now = Some(std::time::Instant::now());
                 async move {
+                    FILES.with(|f| {
+                        for (p, c) in f.borrow().iter() {
+                            vsh::write_file(&state, p, c);
+                        }
+                    });
                     let mut argv = vec!["yash".to_string()];
                     match &feed {
                         Feed::File => {
@@ -403,6 +408,14 @@ enum Cmd {
     Not(Box<Cmd>),
     If(Box<Cmd>, Box<Cmd>, Box<Cmd>),
     Sub(Box<Cmd>),
+    /// eval TEXT (false) / . FILE (true, the content of the file)
+    Nest(bool, Vec<u8>),
+}
+
+thread_local! {
+    /// files of the current case (path, content), written to the simulated file
+    /// system before every run; `. PATH` is translated with their content
+    static FILES: RefCell<Vec<(String, Vec<u8>)>> = const { RefCell::new(Vec::new()) };
 }
 
 impl Cmd {
@@ -428,7 +441,34 @@ impl Cmd {
             Cmd::Not(a) => format!("(CNot {})", a.coq()),
             Cmd::If(c, t, e) => format!("(CIf {} {} {})", c.coq(), t.coq(), e.coq()),
             Cmd::Sub(a) => format!("(CSub {})", a.coq()),
+            Cmd::Nest(false, t) => {
+                let v: Vec<String> = split_lines(t).iter().map(|l| coq::bytes(l)).collect();
+                format!("(CNest (NMem {}))", coq::list(&v))
+            }
+            Cmd::Nest(true, t) => format!("(CNest (NFile {}))", coq::bytes(t)),
         }
+    }
+    /// texts of the nested loops directly inside this command
+    fn nests(&self, out: &mut Vec<Vec<u8>>) {
+        match self {
+            Cmd::Nest(_, t) => out.push(t.clone()),
+            Cmd::Seq(a, b) | Cmd::And(a, b) | Cmd::Or(a, b) => {
+                a.nests(out);
+                b.nests(out);
+            }
+            Cmd::Not(a) | Cmd::Sub(a) => a.nests(out),
+            Cmd::If(c, t, e) => {
+                c.nests(out);
+                t.nests(out);
+                e.nests(out);
+            }
+            _ => {}
+        }
+    }
+    fn has_nest(&self) -> bool {
+        let mut v = vec![];
+        self.nests(&mut v);
+        !v.is_empty()
     }
     /// alias definitions and option changes anywhere inside
     fn atoms(&self, out: &mut Vec<Cmd>) {
@@ -580,6 +620,14 @@ fn tr_simple(c: &ast::SimpleCommand) -> Option<Cmd> {
             }
         }
         ("slurp", []) => Some(Cmd::Slurp),
+        // eval joins its operands with a space (yash-builtin/src/eval.rs join)
+        ("eval", a) if !a.is_empty() && a.iter().all(|x| x.is_ascii() && !x.starts_with('-')) => {
+            Some(Cmd::Nest(false, a.join(" ").into_bytes()))
+        }
+        (".", [path]) if path.starts_with('/') => {
+            let content = FILES.with(|f| f.borrow().iter().find(|(p, _)| p == path).map(|(_, c)| c.clone()))?;
+            Some(Cmd::Nest(true, content))
+        }
         ("alias", [d]) => {
             let (n, v) = d.split_once('=')?;
             if n.is_empty() || !n.chars().all(|c| c.is_ascii_alphanumeric()) {
@@ -608,7 +656,14 @@ fn tr_compound(c: &ast::FullCompoundCommand) -> Option<Cmd> {
     }
     match &c.command {
         ast::CompoundCommand::Grouping(l) => tr_list(l),
-        ast::CompoundCommand::Subshell { body, .. } => Some(Cmd::Sub(Box::new(tr_list(body)?))),
+        ast::CompoundCommand::Subshell { body, .. } => {
+            let b = tr_list(body)?;
+            // an interrupt (syntax error in a nested text) inside a subshell is outside the model
+            if b.has_nest() {
+                return None;
+            }
+            Some(Cmd::Sub(Box::new(b)))
+        }
         ast::CompoundCommand::If { condition, body, elifs, r#else } => {
             let mut tail = match r#else {
                 Some(e) => tr_list(e)?,
@@ -844,15 +899,24 @@ fn parse_session(sts: &[&PState], lines: &[String], start: usize) -> Option<Sess
     None
 }
 
+type Entry = (Vec<usize>, usize, usize, PRes);
+
 struct Table {
     states: Vec<PState>,
-    /// (state indices of the calls, start byte, lines taken, result)
-    entries: Vec<(Vec<usize>, usize, usize, PRes)>,
+    /// (state indices of the calls, start byte, lines taken, result) for the script
+    entries: Vec<Entry>,
+    /// nesting depth of eval / dot (0: none)
+    level: usize,
+    /// texts of the nested loops (operands of eval, contents of dot files), transitively
+    texts: Vec<Vec<u8>>,
+    /// the same for the nested texts (index into `texts`)
+    nentries: Vec<(usize, Entry)>,
 }
 
 const MAX_STATES: usize = 12;
 const MAX_ENTRIES: usize = 1500;
 const MAX_CHAIN: usize = 5;
+const MAX_NEST: usize = 3;
 
 /// `candidates`: the parser states the next call of the session can be made
 /// in (all of them for the first call; for a later call, what the command
@@ -863,7 +927,7 @@ fn explore(
     lines: &[String],
     start: usize,
     chain: &mut Vec<usize>,
-    entries: &mut Vec<(Vec<usize>, usize, usize, PRes)>,
+    entries: &mut Vec<Entry>,
     atoms: &mut Vec<Cmd>,
 ) -> Option<()> {
     for &si in candidates {
@@ -891,6 +955,10 @@ fn explore(
                         i += 1;
                     }
                     next = reach.iter().filter_map(|st| states.iter().position(|x| x == st)).collect();
+                    if c.has_nest() {
+                        // the nested text can define aliases / set options of its own
+                        next = (0..states.len()).collect();
+                    }
                     for a in found {
                         if !atoms.contains(&a) {
                             atoms.push(a);
@@ -921,26 +989,56 @@ fn build_table(script: &[u8]) -> Option<Table> {
     // after such a byte (and after every newline, and at the beginning)
     let mut delims: Vec<u8> = vec![];
     loop {
-        let mut entries = vec![];
         let mut new_delims = delims.clone();
-        for start in 0..=script.len() {
-            let ok = start == 0
-                || script[start - 1] == b'\n'
-                || delims.contains(&script[start - 1])
-                || start == script.len();
-            if !ok {
-                continue;
-            }
-            let lines: Vec<String> = split_lines(&script[start..]).iter().map(|l| line_string(l)).collect();
-            let first = entries.len();
-            let all: Vec<usize> = (0..states.len()).collect();
-            explore(&states, &all, &lines, 0, &mut vec![], &mut entries, &mut atoms)?;
-            for e in &mut entries[first..] {
-                e.1 = start;
-                if let PRes::Complete(c, _) = &e.3 {
-                    c.delims(&mut new_delims);
+        // text 0 is the script; the others are found while parsing
+        let mut texts: Vec<(Vec<u8>, usize)> = vec![(script.to_vec(), 0)];
+        let mut per_text: Vec<Vec<Entry>> = vec![];
+        let mut edges: Vec<(usize, usize)> = vec![];
+        let mut ti = 0;
+        while ti < texts.len() {
+            let (text, depth) = texts[ti].clone();
+            let mut entries: Vec<Entry> = vec![];
+            for start in 0..=text.len() {
+                let ok = start == 0
+                    || text[start - 1] == b'\n'
+                    || delims.contains(&text[start - 1])
+                    || start == text.len();
+                if !ok {
+                    continue;
+                }
+                let lines: Vec<String> = split_lines(&text[start..]).iter().map(|l| line_string(l)).collect();
+                let first = entries.len();
+                let all: Vec<usize> = (0..states.len()).collect();
+                explore(&states, &all, &lines, 0, &mut vec![], &mut entries, &mut atoms)?;
+                for e in &mut entries[first..] {
+                    e.1 = start;
+                    if let PRes::Complete(c, _) = &e.3 {
+                        c.delims(&mut new_delims);
+                        let mut found = vec![];
+                        c.nests(&mut found);
+                        for t in found {
+                            let j = match texts.iter().position(|(x, _)| *x == t) {
+                                Some(j) => j,
+                                None => {
+                                    if depth + 1 > MAX_NEST || texts.len() > 12 {
+                                        return None;
+                                    }
+                                    texts.push((t, depth + 1));
+                                    texts.len() - 1
+                                }
+                            };
+                            if !edges.contains(&(ti, j)) {
+                                edges.push((ti, j));
+                            }
+                        }
+                    }
                 }
             }
+            per_text.push(entries);
+            if per_text.iter().map(|v| v.len()).sum::<usize>() > MAX_ENTRIES {
+                return None;
+            }
+            ti += 1;
         }
         // close the set of states under every alias definition / option change seen
         let before = states.len();
@@ -958,7 +1056,28 @@ fn build_table(script: &[u8]) -> Option<Table> {
             i += 1;
         }
         if states.len() == before && new_delims.len() == delims.len() {
-            return Some(Table { states, entries });
+            // nesting level = longest chain of texts running one another
+            let mut dep = vec![0usize; texts.len()];
+            for _ in 0..=MAX_NEST + 1 {
+                for &(a, b) in &edges {
+                    if dep[b] < dep[a] + 1 {
+                        dep[b] = dep[a] + 1;
+                    }
+                }
+            }
+            let level = dep.iter().copied().max().unwrap_or(0);
+            if level > MAX_NEST {
+                return None;
+            }
+            let mut it = per_text.into_iter();
+            let entries = it.next().unwrap();
+            let mut nentries = vec![];
+            for (i, v) in it.enumerate() {
+                for e in v {
+                    nentries.push((i, e));
+                }
+            }
+            return Some(Table { states, entries, level, texts: texts.into_iter().skip(1).map(|(t, _)| t).collect(), nentries });
         }
         delims = new_delims;
     }
@@ -1112,14 +1231,38 @@ fn emit_raw(w: &mut CasesWriter, script: &[u8], data: &[u8], feeds: &[Feed], str
             format!("([{}]%nat, {}, {}, {})", sl.join("; "), coq::nat(*i), coq::nat(*k), r.coq())
         })
         .collect();
+    let texts: Vec<String> = table.texts.iter().map(|t| coq::bytes(t)).collect();
+    let nentries: Vec<String> = table
+        .nentries
+        .iter()
+        .map(|(t, (s, i, k, r))| {
+            let sl: Vec<String> = s.iter().map(|x| x.to_string()).collect();
+            format!("({}, ([{}]%nat, {}, {}, {}))", coq::nat(*t), sl.join("; "), coq::nat(*i), coq::nat(*k), r.coq())
+        })
+        .collect();
     let term = format!(
-        "(mkCase {} {} {} {} {})",
+        "(mkCase {} {} {} {} {} {} {} {})",
         coq::bytes(script),
         coq::bytes(data),
         coq::list(&states),
         coq::list(&entries),
-        coq::list(&runs)
+        coq::list(&runs),
+        coq::nat(table.level),
+        coq::list(&texts),
+        coq::list(&nentries)
     );
+    if table.level > 0 {
+        w.count(&format!("has:nested-loop-depth-{}", table.level));
+        if table.nentries.iter().any(|(_, e)| matches!(&e.3, PRes::Complete(c, _) if c.reads_input())) {
+            w.count("has:nested-command-reading-stdin");
+        }
+        if table.nentries.iter().any(|(_, e)| e.0 == [0] && e.3 == PRes::Error) {
+            w.count("has:nested-syntax-error-somewhere");
+        }
+        if table.nentries.iter().any(|(_, e)| matches!(&e.3, PRes::Complete(c, _) if { let mut a = vec![]; c.atoms(&mut a); !a.is_empty() })) {
+            w.count("has:nested-alias-or-option-change");
+        }
+    }
     // classification of the input
     let multi = table.entries.iter().any(|e| matches!(e.3, PRes::Complete(..)) && e.2 >= 2);
     let reads = table.entries.iter().any(|e| matches!(&e.3, PRes::Complete(c, _) if c.reads_input()));
@@ -1199,6 +1342,134 @@ impl Gen<'_> {
             7 => format!("a\\ b {k}\\\\"),
             _ => format!("d{k}"),
         }
+    }
+    /// one line (or multi-line command) of a nested text; `depth` = how many
+    /// more levels of nesting are allowed below it; `q` = the quote character
+    /// available for a further eval operand (none left: only dot files nest)
+    fn inner_item(&mut self, depth: usize, q: Option<char>, nfiles: usize) -> Vec<String> {
+        let k = self.k();
+        match self.r.below(20) {
+            0..=2 => vec![format!("probe {k}")],
+            3 => vec![format!("read -r {}", self.var())],
+            4 => vec![format!("read {}", self.var())],
+            5 => vec![format!("read -r {v}; show {v}", v = self.var())],
+            6 => vec![format!("show {}", self.var())],
+            7 => vec![format!("alias n{k}=probe\\ a{k}"), format!("n{k} x")],
+            8 => vec![format!("alias n{k}=probe\\ b{k}; n{k} y"), format!("n{k} z")],
+            9 => vec!["{".into(), format!("probe {k}"), format!("read -r {}", self.var()), "}".into()],
+            10 => vec![format!("if true; then"), format!("probe {k}"), "fi".into()],
+            11 => vec!["false".into()],
+            12 => vec![format!("true && probe {k}")],
+            13 if depth > 0 && nfiles > 0 => vec![format!(". /f{}", 1 + self.r.below(nfiles))],
+            14 if depth > 0 && nfiles > 0 => vec![format!("! . /f{}", 1 + self.r.below(nfiles)), format!("probe {k}")],
+            15 | 16 if depth > 0 && q.is_some() => {
+                let qc = q.unwrap();
+                let mut inner = vec![];
+                for _ in 0..1 + self.r.below(3) {
+                    inner.extend(self.inner_item(depth - 1, None, nfiles));
+                }
+                let body = inner.join("\n");
+                if body.contains(qc) || body.contains('\\') {
+                    vec![format!("probe {k}")]
+                } else {
+                    vec![format!("eval {qc}{body}{qc}")]
+                }
+            }
+            17 => vec![format!("probe {k}; read -r {v}; probe {k}b", v = self.var())],
+            18 => vec![format!("unalias n{k}")],
+            _ => vec![format!("probe {k}")],
+        }
+    }
+    fn inner_text(&mut self, depth: usize, q: Option<char>, nfiles: usize, bad: bool) -> String {
+        let mut lines = vec![];
+        for _ in 0..1 + self.r.below(4) {
+            lines.extend(self.inner_item(depth, q, nfiles));
+        }
+        if bad {
+            let p = self.r.below(lines.len() + 1);
+            lines.insert(p, self.r.pick(&BAD_LINES).to_string());
+        }
+        if self.r.chance(1, 12) {
+            let p = self.r.below(lines.len() + 1);
+            lines.insert(p, "exit 7".into());
+        }
+        join(&lines, self.r.chance(1, 2))
+    }
+    /// A script with nested read-eval loops (eval with multi-line operands, dot
+    /// files nested up to depth 3) whose commands read the shared standard
+    /// input, define aliases used by their own later lines and by the script,
+    /// and contain planted syntax errors.  Returns the script and the files.
+    fn nested_script(&mut self) -> (String, Vec<(String, Vec<u8>)>) {
+        // f3 is a leaf, f2 may run f3, f1 may run f2 and f3 (no cycles)
+        let mut files: Vec<(String, Vec<u8>)> = vec![];
+        let bad3 = self.r.chance(1, 8);
+        let f3 = self.inner_text(0, None, 0, bad3);
+        let f2 = {
+            let bad = self.r.chance(1, 10);
+            let mut t = self.inner_text(0, Some('"'), 0, bad);
+            if self.r.chance(1, 2) {
+                t = format!("probe f2a\n. /f3\n{t}");
+            }
+            t
+        };
+        let f1 = {
+            let bad = self.r.chance(1, 10);
+            let mut t = self.inner_text(1, Some('\''), 0, bad);
+            if self.r.chance(1, 2) {
+                t = format!("{t}{}. /f2\nprobe f1z\n", if t.ends_with('\n') { "" } else { "\n" });
+            }
+            t
+        };
+        files.push(("/f1".into(), f1.into_bytes()));
+        files.push(("/f2".into(), f2.into_bytes()));
+        files.push(("/f3".into(), f3.into_bytes()));
+        let mut lines: Vec<String> = vec![];
+        let items = 2 + self.r.below(4);
+        for _ in 0..items {
+            let k = self.k();
+            match self.r.below(12) {
+                0 | 1 => lines.push(self.simple()),
+                2 | 3 => {
+                    let bad = self.r.chance(1, 8);
+                    let t = self.inner_text(2, Some('"'), 3, bad);
+                    if t.contains('\'') {
+                        lines.push(format!("probe {k}"));
+                    } else {
+                        lines.push(format!("eval '{t}'"));
+                    }
+                }
+                4 => lines.push(format!(". /f{}", 1 + self.r.below(3))),
+                5 => {
+                    lines.push(format!("eval 'read -r {v}' 'show {v}'; probe {k}", v = self.var()));
+                    lines.push(self.data_line());
+                }
+                6 => {
+                    lines.push(format!("if . /f{}; then probe {k}t; else probe {k}e; fi", 1 + self.r.below(3)));
+                }
+                7 => {
+                    lines.push(format!("eval 'alias m{k}=\"probe {k}\"'"));
+                    lines.push(format!("m{k} w"));
+                }
+                8 => {
+                    lines.push(format!("eval 'read {}", self.var()));
+                    lines.push(format!("probe {k}' && probe {k}b"));
+                    lines.push(self.data_line());
+                }
+                9 => lines.push(format!("false; eval ''; probe {k}")),
+                10 => {
+                    lines.push(format!("! eval 'false' && . /f3"));
+                }
+                _ => {
+                    lines.push(format!(". /f{}", 1 + self.r.below(3)));
+                    lines.push(self.data_line());
+                    lines.push(self.data_line());
+                }
+            }
+        }
+        for _ in 0..self.r.below(4) {
+            lines.push(self.data_line());
+        }
+        (join(&lines, self.r.chance(4, 5)), files)
     }
     fn simple(&mut self) -> String {
         let k = self.k();
@@ -1581,6 +1852,25 @@ fn standard_feeds(r: &mut Rng, script: &str, extra_fifo: usize) -> Vec<Feed> {
     f
 }
 
+/// Generation of scripts with nested read-eval loops (eval, dot).
+const NESTED_STREAM: bool = true;
+
+/// (script, data on a separate standard input, files)
+const NESTED_CORPUS: [(&str, &str, &[(&str, &str)]); 12] = [
+    ("eval 'probe a\nread -r v1\nshow v1'\nline1\nprobe b\n", "d1\nd2\n", &[]),
+    (". /f1\nline1\nprobe b\n", "d1\nd2\n", &[("/f1", "probe a\nread -r v1\nshow v1\n")]),
+    ("eval 'alias x=\"probe in\"\nx 1'\nx 2\n", "", &[]),
+    ("eval 'alias x=\"probe in\"; x 1'\nx 2\n", "", &[]),
+    ("eval 'probe a\n)\nprobe no'\nprobe no2\n", "", &[]),
+    (". /f1\nprobe no2\n", "", &[("/f1", "probe a\nread v1\nfi\nprobe no\n")]),
+    ("false; eval ''; probe st\nfalse; . /f1; probe st2\n", "", &[("/f1", "")]),
+    (". /f1\nd1\nd2\nd3\nprobe end\n", "x1\nx2\nx3\n", &[("/f1", "read v1\n. /f2\nshow v1"), ("/f2", "read v2\neval 'read v1\nshow v2'\n")]),
+    ("if eval 'read v1\nfalse'; then probe t; else probe e; fi\nd1\nshow v1\n", "q\n", &[]),
+    ("eval 'exit 3\nprobe no'\nprobe no2\n", "", &[]),
+    ("eval 'slurp'\nrest1\nrest2\n", "d1\n", &[]),
+    (". /f1\nab:xy\nprobe z\n", "p:q\n", &[("/f1", "read -d : v1\nshow v1\n")]),
+];
+
 const BAD_LINES: [&str; 9] =
     [")", "fi", "probe z ;;", "}", "probe \"open", "hdoc <<E", "if true; then", "{ probe z", "probe z | | probe y"];
 
@@ -1650,7 +1940,7 @@ fn main() {
         let feeds = standard_feeds(&mut r, &"x".repeat(s.len()), 2);
         if !emit_bytes(&mut w, s, "d1\nd2\n", &feeds, "corpus", &[]) {
             eprintln!("corpus script outside the model: {s:?}");
-            w.push("(mkCase [0%N] nil nil nil nil)", "{\"stream\":\"corpus\",\"outside_model\":true}", &[], None);
+            w.push("(mkCase [0%N] nil nil nil nil 0%nat nil nil)", "{\"stream\":\"corpus\",\"outside_model\":true}", &[], None);
         }
     }
     for (s, d) in CORPUS.iter() {
@@ -1660,7 +1950,7 @@ fn main() {
             // must not happen: make it visible (verdict 99) instead of checking nothing
             eprintln!("corpus script outside the model: {s:?}");
             w.push(
-                "(mkCase [0%N] nil nil nil nil)",
+                "(mkCase [0%N] nil nil nil nil 0%nat nil nil)",
                 &format!("{{\"stream\":\"corpus\",\"outside_model\":{}}}", json_str(s)),
                 &[],
                 None,
@@ -1773,6 +2063,40 @@ fn main() {
             Feed::ScriptFile,
         ];
         emit(&mut w, &script, "d1\nd2\n", &feeds, "multi-line-alias", &[]);
+    }
+
+    // 2g. nested read-eval loops: eval / dot up to depth 3 competing for standard input
+    if NESTED_STREAM {
+        for (s, d, files) in NESTED_CORPUS.iter() {
+            let mut r = rng.fork(3);
+            FILES.with(|f| *f.borrow_mut() = files.iter().map(|(p, c)| (p.to_string(), c.as_bytes().to_vec())).collect());
+            let feeds = standard_feeds(&mut r, s, 2);
+            if !emit(&mut w, s, d, &feeds, "nested-loops", &[]) {
+                eprintln!("nested corpus script outside the model: {s:?}");
+                w.push(
+                    "(mkCase [0%N] nil nil nil nil 0%nat nil nil)",
+                    &format!("{{\"stream\":\"nested-loops\",\"outside_model\":{}}}", json_str(s)),
+                    &[],
+                    None,
+                );
+            }
+            FILES.with(|f| f.borrow_mut().clear());
+        }
+        let n_nested = args.scale(150, 2500);
+        for i in 0..n_nested {
+            let mut r = rng.fork(1_200_000 + i as u64);
+            let (script, files) = Gen { r: &mut r, key: 0 }.nested_script();
+            FILES.with(|f| *f.borrow_mut() = files);
+            let feeds = vec![
+                Feed::File,
+                Feed::Fifo(vec![1; script.len().min(200)], true),
+                Feed::Fifo(random_sizes(&mut r, script.len()), true),
+                Feed::CmdString,
+                Feed::ScriptFile,
+            ];
+            emit(&mut w, &script, "d1\nd2\nd3\nd4\n", &feeds, "nested-loops", &[]);
+            FILES.with(|f| f.borrow_mut().clear());
+        }
     }
 
     // 2f. an input function returning the script cut at every byte position
